@@ -101,6 +101,9 @@ def sx(n):
         return f"(let {a[0]} {sx(a[1])} {sx(a[2])})"
     if k == "lett":
         return f"(lett ({' '.join(a[0])}) {sx(a[1])} {sx(a[2])})"
+    if k == "letp":
+        # nested tuple pattern, desugared for the model into flat destructurings through temporaries
+        return sx(desugar_pattern(a[0], a[1], a[2]))
     if k == "tup":
         return "(tup " + " ".join(sx(x) for x in a[0]) + ")"
     if k == "proj":
@@ -124,6 +127,37 @@ def sx(n):
     if k == "set":
         return f"(set {a[0]} {sx(a[1])} {sx(a[2])})"
     raise ValueError(k)
+
+
+_tmp_counter = [0]
+
+
+def pat_names(p):
+    return [p] if isinstance(p, str) else [x for q in p for x in pat_names(q)]
+
+
+def desugar_pattern(pat, e, body):
+    """let ((a,b),c) = e; body  ==>  lett (tmp, c) = e; lett (a,b) = tmp; body   (model side only)"""
+    names, inner = [], []
+    for q in pat:
+        if isinstance(q, str):
+            names.append(q)
+        else:
+            _tmp_counter[0] += 1
+            t = "pt%d_%s" % (_tmp_counter[0], "_".join(pat_names(q))[:40])
+            names.append(t)
+            inner.append((q, t))
+    for q, t in reversed(inner):
+        body = desugar_pattern(q, Node("var", t), body)
+    return Node("lett", names, e, body)
+
+
+def pat_src(p, kn):
+    return kn.name(p) if isinstance(p, str) else "(" + ", ".join(pat_src(q, kn) for q in p) + ")"
+
+
+def type_src(t):
+    return "float" if t == F else "(" + ", ".join(type_src(x) for x in t[1:]) + ")"
 
 
 class Knobs:
@@ -164,12 +198,15 @@ def block(n, kn, ind):
             lines.append(pad + c if c else "")
         tail = _cmt(kn, key + "t")
         lines.append(line + ((" " + tail) if tail else ""))
-    while n.kind in ("let", "lett", "set"):
+    while n.kind in ("let", "lett", "set", "letp"):
         if n.kind == "let":
             add(f"{pad}let {kn.name(n.a[0])} = {src(n.a[1], kn, ind)}", n.a[0])
             n = n.a[2]
         elif n.kind == "lett":
             add(f"{pad}let ({', '.join(kn.name(x) for x in n.a[0])}) = {src(n.a[1], kn, ind)}", n.a[0][0])
+            n = n.a[2]
+        elif n.kind == "letp":
+            add(f"{pad}let {pat_src(n.a[0], kn)} = {src(n.a[1], kn, ind)}", pat_names(n.a[0])[0])
             n = n.a[2]
         else:
             add(f"{pad}{kn.name(n.a[0])} = {src(n.a[1], kn, ind)}", n.a[0] + "s")
@@ -200,7 +237,7 @@ def src(n, kn=DEFAULT, ind=0, prec=0):
         return f"({s})" if (p < prec or kn.parens or prec > 0) else s
     if k == "if":
         return f"if ({src(a[0], kn, ind)}) {braces(a[1], kn, ind)} else {braces(a[2], kn, ind)}"
-    if k in ("let", "lett", "set"):
+    if k in ("let", "lett", "set", "letp"):
         return "(" + braces(n, kn, ind) + ")"
     if k == "tup":
         if kn.nl:
@@ -252,8 +289,8 @@ class Fn:
     def src(self, kn=DEFAULT):
         ps = ", ".join(kn.name(p) + (":float" if self.name == "dsp" or kn.annotate else "") for p in self.params)
         rt = ""
-        if kn.annotate:
-            rt = " -> float" if self.ret == F else " -> (" + ", ".join("float" for _ in self.ret[1:]) + ")"
+        if kn.annotate or getattr(self, "annot_ret", False):
+            rt = " -> " + type_src(self.ret)
         return f"fn {kn.name(self.name) if self.name != 'dsp' else 'dsp'}({ps}){rt} {braces(self.body, kn, 0)}"
 
 
@@ -385,6 +422,9 @@ class Gen:
         raise ValueError(k)
 
     def cond(self, d, ctx):
+        if self.p.get("numeric_cond", True) and self.r.chance(1, 4):
+            # a plain number as condition: true iff > 0 (negative and zero values take the else arm)
+            return Node("bin", self.r.pick(["sub", "add", "mul"]), self.simple(d, ctx), self.simple(max(0, d - 1), ctx))
         op = self.r.pick(["lt", "le", "gt", "ge", "eq", "ne"])
         return Node("bin", op, self.simple(d, ctx), self.simple(d, ctx))
 
@@ -395,7 +435,7 @@ class Gen:
         opts = [("tup", 6)]
         if vars_t:
             opts.append(("var", 4))
-        fs = [f for f in self.fns if f.ret == t and (ctx["allow_state"] or not f.stateful)]
+        fs = [f for f in self.fns if f.ret == t and (ctx["allow_state"] or not f.stateful) and not getattr(f, "tuple_self", False)]
         if fs and d > 0:
             opts.append(("call", 4))
         k = r.weighted(opts)
@@ -426,8 +466,17 @@ class Gen:
             mut = [v for v in ctx["vars"] if v[1] == F and v[2]]
             if self.p.get("assign", True) and mut:
                 opts.append(("set", 2))
+            tsf = [f for f in self.fns if getattr(f, "tuple_self", False)] if ctx["allow_state"] else []
+            if tsf:
+                opts.append(("letpcall", 4))
             k = r.weighted([o for o in opts if o[1] > 0])
             self.bump("s_" + k)
+            if k == "letpcall":
+                f = r.pick(tsf)
+                pat = self.fresh_pattern(f.ret)
+                stmts.append(("letp", pat, Node("call", f.name, [self.simple(d, ctx) for _ in f.ptypes], self.new_site())))
+                ctx["vars"] += [(x, F, False) for x in pat_names(pat)]
+                continue
             if k == "let":
                 x = self.fresh()
                 stmts.append(("let", x, self.simple(d, ctx)))
@@ -475,6 +524,8 @@ class Gen:
                 tail = Node("let", st[1], st[2], tail)
             elif st[0] == "lett":
                 tail = Node("lett", st[1], st[2], tail)
+            elif st[0] == "letp":
+                tail = Node("letp", st[1], st[2], tail)
             else:
                 tail = Node("set", st[1], st[2], tail)
         return tail
@@ -490,13 +541,36 @@ class Gen:
     def no_bare_proj_tail(self, n):
         """known finding F20: a then-arm whose value is a bare tuple projection makes the WASM backend yield 0 when the
         else-arm is taken; the profile keeps such tails arithmetic"""
-        if n.kind in ("let", "lett", "set"):
+        if n.kind in ("let", "lett", "set", "letp"):
             return Node(n.kind, *(list(n.a[:-1]) + [self.no_bare_proj_tail(n.a[-1])]))
         if n.kind == "if":
             return Node("if", n.a[0], self.no_bare_proj_tail(n.a[1]), self.no_bare_proj_tail(n.a[2]))
         if n.kind == "proj":
             return Node("bin", "add", n, Node("lit", "0.0"))
         return n
+
+    def fresh_pattern(self, t):
+        return self.fresh() if t == F else [self.fresh_pattern(x) for x in t[1:]]
+
+    def gen_tuple_self_fn(self, name, globals_):
+        """fn name(a..) -> T { let PAT = self; (leaf exprs…) } with T a (possibly nested) tuple: tuple-valued `self`"""
+        r = self.r
+        shapes = [T(F, F), T(F, F, F), T(T(F, F), F), T(F, T(F, F)), T(T(F, F), T(F, F)), T(T(F, T(F, F)), F)]
+        ret = r.pick(shapes)
+        ps = [self.fresh("a") for _ in range(r.below(2))]
+        pat = self.fresh_pattern(ret)
+        ctx = dict(vars=list(globals_) + [(q, F, False) for q in ps] + [(x, F, False) for x in pat_names(pat)],
+                   allow_state=False, self_type=None, delays=set(), used_self=[True])
+
+        def build(t):
+            if t == F:
+                return Node("bin", r.pick(["add", "sub", "mul"]), self.simple(1, ctx), self.simple(1, ctx))
+            return Node("tup", [build(x) for x in t[1:]])
+        body = Node("letp", pat, Node("self"), build(ret))
+        fn = Fn(name, ps, [F] * len(ps), ret, body, True, True)
+        fn.annot_ret = True
+        fn.tuple_self = True
+        return fn
 
     def gen_fn(self, name, nparams, ret, depth, stateful, globals_):
         ps = [self.fresh("a") for _ in range(nparams)]
@@ -512,7 +586,7 @@ class Gen:
         return Fn(name, ps, [F] * nparams, ret, body, used_self[0], self.site > s0 or used_self[0])
 
     def arith_tail(self, n):
-        if n.kind in ("let", "lett", "set"):
+        if n.kind in ("let", "lett", "set", "letp"):
             return Node(n.kind, *(list(n.a[:-1]) + [self.arith_tail(n.a[-1])]))
         if n.kind == "if":
             return Node("if", n.a[0], self.arith_tail(n.a[1]), self.arith_tail(n.a[2]))
@@ -529,6 +603,9 @@ class Gen:
             globals_.append((x, self.simple(1 + r.below(2), ctx)))
             genv.append((x, F, False))
         for i in range(r.below(self.p.get("max_fns", 4) + 1)):
+            if self.p.get("tuple_self", self.p.get("tuples", True)) and r.chance(1, 5):
+                self.fns.append(self.gen_tuple_self_fn(f"f{i}", genv))
+                continue
             ret = F if (r.chance(4, 5) or not self.p.get("tuples", True)) else T(F, F)
             stateful = r.chance(self.p.get("stateful_pct", 60), 100)
             self.fns.append(self.gen_fn(f"f{i}", r.below(3), ret, 1 + r.below(self.p.get("depth", 3)), stateful, genv))
@@ -543,6 +620,7 @@ PROFILES = {
     "core": dict(avoid_f2=True, avoid_f3=True),
     # scalar programs with state: the fragment on which VM, WASM and the reference semantics agree on the pinned tree
     "scalar": dict(avoid_f2=True, avoid_f3=True, lambdas=False, tuples=False),
+    "scalar_tself": dict(avoid_f2=True, avoid_f3=True, lambdas=False, tuples=False, tuple_self=True),
     "scalar_deep": dict(avoid_f2=True, avoid_f3=True, lambdas=False, tuples=False, depth=5, max_fns=5),
     "closure_assign": dict(avoid_f2=True, avoid_f3=True, closure_assign=True),
     "nolam": dict(avoid_f2=True, avoid_f3=True, lambdas=False),
@@ -699,6 +777,8 @@ def user_names(p):
             names.append(n.a[0])
         elif n.kind == "lett":
             names.extend(n.a[0])
+        elif n.kind == "letp":
+            names.extend(pat_names(n.a[0]))
         elif n.kind == "lam":
             names.extend(n.a[0])
         for _, ch in children(n):
